@@ -63,7 +63,7 @@ impl Property for C16 {
         proptest::collection::vec(any::<u16>(), 0..(max_ops * 8 + 8))
             .prop_map(move |genes| {
                 let mut g = Genes::new(genes);
-                let cfg = HistCfg { max_ops, safe_strings: true, w_struct: 2, w_attr: 0, w_chardata: 12, w_create: 3, huge_offsets: true };
+                let cfg = HistCfg { max_ops, safe_strings: true, w_struct: 2, w_attr: 0, w_chardata: 12, w_create: 3, huge_offsets: true, max_doc: 5 };
                 hist::gen_history(&mut g, &cfg)
             })
             .boxed()
@@ -80,7 +80,7 @@ impl Property for C16 {
         };
         let ops = case["ops"].as_array().cloned().unwrap_or_default();
         // model: pool index -> characters
-        let mut model: BTreeMap<usize, Vec<char>> = BTreeMap::new();
+        let mut model: BTreeMap<(usize, usize), Vec<char>> = BTreeMap::new();
         let mut nontrivial = false;
         macro_rules! fail {
             ($key:expr, $detail:expr) => {{
@@ -105,7 +105,8 @@ impl Property for C16 {
                 // creations: remember the initial content
                 if let Outcome::Ok(_) = out {
                     if pool.nodes.len() > before && matches!(kind.as_str(), "create_text" | "create_comment" | "create_cdata") {
-                        model.insert(pool.nodes.len() - 1, op["s"].as_str().unwrap_or("").chars().collect());
+                        let key = (pool.origin[pool.nodes.len() - 1], pool.nodes[pool.nodes.len() - 1].id());
+                        model.insert(key, op["s"].as_str().unwrap_or("").chars().collect());
                     }
                 }
                 continue;
@@ -117,15 +118,17 @@ impl Property for C16 {
             if !readable {
                 continue;
             }
-            if !model.contains_key(&idx) {
+            // the model is keyed by node identity (document of origin, node id): one node may sit at several pool positions
+            let mkey = (pool.origin[idx] + if matches!(node, XmlNode::ExpandedText(_)) { 1000 } else { 0 }, node.id());
+            if !model.contains_key(&mkey) {
                 match data_of(&node) {
                     Some(d) => {
-                        model.insert(idx, d.chars().collect());
+                        model.insert(mkey, d.chars().collect());
                     }
                     None => continue,
                 }
             }
-            let cur: Vec<char> = model[&idx].clone();
+            let cur: Vec<char> = model[&mkey].clone();
             let len = cur.len();
             let cur_s: String = cur.iter().collect();
             let off = offset_of(&op["off"]);
@@ -252,7 +255,7 @@ impl Property for C16 {
                 fail!(format!("c16.{}.wrong-length.{}", kind, ccl), format!("step {} {}: length() is {:?} for data {:?}", step, op, len_of(&node), want));
             }
             if matches!(expect, Expect::Ok) {
-                model.insert(idx, new_model);
+                model.insert(mkey, new_model);
             }
             if kind == "split_text" && matches!(out, Outcome::Ok(_)) && matches!(expect, Expect::Ok) && pool.nodes.len() > before {
                 let newn = pool.nodes.last().unwrap().clone();
@@ -260,7 +263,7 @@ impl Property for C16 {
                 if data_of(&newn).as_deref() != Some(tail.as_str()) {
                     fail!(format!("c16.split_text.wrong-tail.{}", ccl), format!("step {} {} on {:?}: new node holds {:?}, expected {:?}", step, op, cur_s, data_of(&newn), tail));
                 }
-                model.insert(pool.nodes.len() - 1, tail.chars().collect());
+                model.insert((pool.origin[pool.nodes.len() - 1], newn.id()), tail.chars().collect());
                 if had_parent && !merged {
                     // (in the merged-text view adjacent text pieces are presented as one node)
                     // the two nodes must be adjacent siblings, in this order, under the same parent
